@@ -12,7 +12,7 @@ variable (H : Key → Hash)
 def csAdd : List Step := addProg.drop 2
 def csUpdate : List Step := updateProg.drop 1
 def csDelete : List Step := deleteProg
-def csLoad : List Step := loadProg.drop 2
+def csLoad : List Step := loadProg
 
 theorem cs_add (st : St) (r : Regs) (hi : Inv H st) : Inv H (runLocked H csAdd st r).1 := by
   have hp : csAdd = [.lock, .guardAbsent, .hashKey, .guardHashFree, .mkConfig, .guardConfigOk, .mkCred, .cacheSet, .lookupSet, .liveSet, .unlock, .enqueueSave, .ret] := rfl
@@ -50,12 +50,12 @@ theorem cs_delete (st : St) (r : Regs) (hi : Inv H st) : Inv H (runLocked H csDe
 theorem cs_load (st : St) (r : Regs) (hf : st.fault = false) :
     ((runLocked H csLoad st r).1 = st ∧ ((runLocked H csLoad st r).2.res = some .ok → st.loaded = true)) ∨
     Inv H (runLocked H csLoad st r).1 := by
-  have hp : csLoad = [.lock, .guardChangedLoaded, .decode, .guardDecodeOk, .buildMaps, .setCachedContent, .setLookup, .setCache, .liveReplaceTcpLocal, .liveReplaceUdpLocal, .unlock, .ret] := rfl
+  have hp : csLoad = [.lock, .readFile, .deferClose, .guardChangedLoaded, .decode, .guardDecodeOk, .buildMaps, .setCachedContent, .setLookup, .setCache, .liveReplaceTcpLocal, .liveReplaceUdpLocal, .unlock, .ret] := rfl
   rw [hp]
-  by_cases hskip : st.loaded = true ∧ r.content = st.cachedContent
+  by_cases hskip : st.loaded = true ∧ st.file = st.cachedContent
   · left
     simp [runLocked, exec, touch, hskip.1, hskip.2]
-  cases hd : decodeDoc r.content with
+  cases hd : decodeDoc st.file with
   | none =>
     left
     simp [runLocked, exec, touch, hskip, hd]
@@ -69,7 +69,7 @@ theorem cs_load (st : St) (r : Regs) (hf : st.fault = false) :
       right
       simp [runLocked, exec, touch, hskip, hd, hb]
       have hk := build_ok H st.pskLen l lk c hb (decodeDoc_nodup _ _ hd)
-      exact inv_load H hf r.content lk c (build_nodup H _ _ _ _ hb) ⟨hk.1, hk.2.1⟩
+      exact inv_load H hf st.file lk c (build_nodup H _ _ _ _ hb) ⟨hk.1, hk.2.1⟩
 
 theorem cs_load_inv (st : St) (r : Regs) (hi : Inv H st) : Inv H (runLocked H csLoad st r).1 := by
   rcases cs_load H st r hi.noFault with h | h
@@ -236,6 +236,8 @@ theorem act_inv (s : Sys) (a : Act) (hs : SysInv H s) : SysInv H (s.act H a) := 
       · rw [h]; exact seg_mem H t htc s.st
   | dequeue => exact ⟨dequeue_inv H _ hs.inv, hs.cuts⟩
   | save => exact ⟨save_inv H _ hs.inv, hs.cuts⟩
+  | edit d =>
+    exact ⟨⟨hs.inv.loaded, hs.inv.noFault, hs.inv.nodup, hs.inv.sound, hs.inv.complete, hs.inv.tcp_eq, hs.inv.udp_eq⟩, hs.cuts⟩
 
 theorem run_inv (as : List Act) (s : Sys) (hs : SysInv H s) : SysInv H (s.run H as) := by
   induction as generalizing s with
